@@ -11,7 +11,7 @@ use crate::engine::{gen, hash_of, Check, Fail, Property, Rec, TResult, Tier};
 use crate::ensure;
 use crate::world::{asset, native, token, World, DAY_NS, START_TIME_S};
 
-pub const DENOMS: [&str; 3] = ["ampwhale", "bwhale", "unlisted"];
+pub const DENOMS: [&str; 3] = ["ampwhale", "ampwhalex", "amp"];
 pub const USERS: [&str; 4] = ["alice", "bob", "carol", "dave"];
 pub const B_FUND: u128 = 1u128 << 100;
 
@@ -29,12 +29,12 @@ pub fn build_bond_world(period_ns: u64, grace: u64) -> Result<BondWorld, String>
 }
 
 pub fn build_hub(period_ns: u64, grace: u64, duration_ns: u64, genesis_ns: u64) -> Result<BondWorld, String> {
-    let mut w = World::new_with_fund(&USERS, &["ampwhale", "bwhale", "unlisted", "uwhale"], B_FUND);
+    let mut w = World::new_with_fund(&USERS, &["ampwhale", "ampwhalex", "amp", "uwhale"], B_FUND);
     w.setup_pool_network();
     w.setup_vault_network();
     let cw20 = w.create_cw20_with_fund("bond", 6, B_FUND);
     w.setup_fee_hub(
-        &["ampwhale", "bwhale"],
+        &["ampwhale", "ampwhalex"],
         period_ns,
         Decimal::one(),
         grace,
